@@ -156,6 +156,7 @@ class K03(Harness):
 class K13b(Harness):
     name = "K13b"
     prop = "C13"
+    props = ("C13", "C08", "C18")
     title = "rule_list.fix call order: phases/sub-phases ascending, prerequisites last inside a sub-phase, indent refresh before phase 4, model normalisation exactly once after phase 1"
     functions = ("vsg.rule_list", "vsg.rule")
     stubs = K13a.stubs
@@ -183,29 +184,33 @@ class K13b(Harness):
         for a, b in zip(order, order[1:]):
             ra, rb = rules[a], rules[b]
             same = And(f_of(ra.phase == rb.phase), f_of(ra.subphase == rb.subphase))
-            clauses.append(("order", Or(f_of(ra.phase < rb.phase), And(f_of(ra.phase == rb.phase), f_of(ra.subphase < rb.subphase)), same)))
+            clauses.append(("C13:order", Or(f_of(ra.phase < rb.phase), And(f_of(ra.phase == rb.phase), f_of(ra.subphase < rb.subphase)), same)))
             # within one sub-phase: a rule with prerequisites never runs before one without
-            clauses.append(("prereq", Implies(same, Not(And(bool(ra.prerequisites), not bool(rb.prerequisites))))))
+            clauses.append(("C13:prereq", Implies(same, Not(And(bool(ra.prerequisites), not bool(rb.prerequisites))))))
         # model normalisation after phase 1: exactly once iff phase 1 is executed (N >= 1 always) and not skipped
         n_fb = sum(1 for e in log if e[0] == "fix_blank_lines")
         n_tw = sum(1 for e in log if e[0] == "fix_trailing_whitespace")
         n_tm = sum(1 for e in log if e[0] == "update_token_map")
         skip1 = _in_skip(1, sk)
-        clauses.append(("normalise_once", And(Eq(n_fb, core.If(skip1, 0, 1)), Eq(n_tw, n_fb), Eq(n_tm, n_fb))))
+        # (charged to C13 as ordering, to C08 because the written text is re-read with blank_line tokens, to C18 because the index must be rebuilt)
+        norm = And(Eq(n_fb, core.If(skip1, 0, 1)), Eq(n_tw, n_fb), Eq(n_tm, n_fb))
+        for pr in ("C13", "C08", "C18"):
+            clauses.append((pr + ":normalise_once", norm))
         # ... and it happens after every phase-1 rule and before any rule of a later phase
         if n_fb:
             idx = [k for k, e in enumerate(log) if e[0] == "fix_blank_lines"][0]
             for k, e in enumerate(log):
                 if e[0] == "analyze":
                     r = rules[e[1]]
-                    clauses.append(("normalise_position", Iff(f_of(r.phase == 1), k < idx)))
+                    for pr in ("C13", "C08", "C18"):
+                        clauses.append((pr + ":normalise_position", Iff(f_of(r.phase == 1), k < idx)))
         # indentation levels are refreshed before any phase-4 rule (and when phase 1 is skipped)
         n_ti = [k for k, e in enumerate(log) if e[0] == "set_token_indent"]
         for k, e in enumerate(log):
             if e[0] == "analyze":
                 r = rules[e[1]]
                 # (documented order: indentation levels are recomputed right before the indentation phase)
-                clauses.append(("indent_before_phase4", Implies(f_of(r.phase == 4), any(j < k for j in n_ti))))
+                clauses.append(("C13:indent_before_phase4", Implies(f_of(r.phase == 4), any(j < k for j in n_ti))))
         return clauses
 
     signature = staticmethod(_sig)
